@@ -271,6 +271,92 @@ class World:
         sh.see("geometries", "nested")
 
 
+    # ---- observer-set operations made from inside a notification (one-shot observers, a client
+    # tearing its watches down in reaction to a change)
+    def reentrant_ops(self, r):
+        sh = self.sh
+        cands = [t for t, x in self.refs.items() if x.kind != "Temp"]
+        tag = r.choice(cands)
+        ref = self.refs[tag]
+        b0 = self.st.status_block
+        seg = None
+        for _ in range(12):
+            s_ = bytes(r.randrange(256) for _ in range(ref.width))
+            b1 = b0[: ref.pos] + s_ + b0[ref.pos + ref.width :]
+            if ref.decode(b0) != ref.decode(b1):
+                seg = s_
+                break
+        if seg is None:
+            return
+        acc = self.st.accessors[tag]
+        self.unwatch_all(tag)
+        K = r.randrange(2, 6)
+        ai = r.randrange(K)
+        op = r.choice(["unwatch-self", "unwatch-other", "unwatch-other", "unwatch-all", "watch-new", "unwatch-self-then-rewatch-later"])
+        log, removed, acted, obs = [], {}, [], []
+        other = r.choice([j for j in range(K) if j != ai]) if K > 1 else None
+
+        def newcomer(sender, old, new):
+            log.append(K)
+
+        def mk(i):
+            def o(sender, old, new):
+                log.append(i)
+                if i == ai and not acted:
+                    acted.append(1)
+                    if op == "unwatch-self" or op == "unwatch-self-then-rewatch-later":
+                        acc.unwatch(obs[i])
+                        removed[i] = len(log)
+                    elif op == "unwatch-other":
+                        acc.unwatch(obs[other])
+                        removed[other] = len(log)
+                    elif op == "unwatch-all":
+                        acc.unwatch_all()
+                        for j in range(K):
+                            removed[j] = len(log)
+                    else:
+                        acc.watch(newcomer)
+
+            return o
+
+        for i in range(K):
+            obs.append(mk(i))
+            acc.watch(obs[i])
+        self.calls = []
+        self.cur_b1 = b1
+        w = {"struct": self.cls_name, "tables": self.combo, "geometry": "reentrant-observer-ops", "item": tag, "observers": K, "actor": ai, "op": op, "other": other}
+        try:
+            self.st.replace_status_block_segment(ref.pos, seg)
+        except Exception as e:
+            d = describe_exc(e)
+            sh.violation("C03:update-raise", f"update raised {d['type']}: {d['msg']} when an observer did {op} during its notification", dict(w, exc=d))
+            self.st.set_status_block(b1)
+        sh.evaluations += 1
+        sh.count("reentrant_observer_ops")
+        sh.see("reentrant_ops", op)
+        w["call_order"] = list(log)
+        for i in range(K):
+            n = log.count(i)
+            if i in removed:
+                late = [k for k, x in enumerate(log) if x == i and k >= removed[i]]
+                if late:
+                    sh.violation("C03:removed-observer-called", f"{tag}: observer #{i} was removed ({op} by observer #{ai}) during the notification and still called afterwards", w)
+                elif n > 1:
+                    sh.violation("C03:duplicate", f"{tag}: observer #{i} called {n} times for one update ({op})", w)
+            elif n == 0:
+                sh.violation("C03:missed", f"{tag} changed but its still-registered observer #{i} of {K} was not called: observer #{ai} did {op} during the notification", w)
+            elif n > 1:
+                sh.violation("C03:duplicate", f"{tag}: observer #{i} called {n} times for one update ({op})", w)
+        if log.count(K) > 1:
+            sh.violation("C03:duplicate", f"{tag}: an observer registered during the notification was called {log.count(K)} times", w)
+        try:
+            acc.unwatch_all()
+        except Exception:
+            pass
+        self.watch(tag, r.choice(["function", "lambda", "method"]))
+        sh.see("geometries", "reentrant-observer-ops")
+
+
 def gen_update(w: World, r):
     """Pick an (offset, segment, geometry-name) relative to a random item."""
     b = w.st.status_block
@@ -343,6 +429,8 @@ def history(sh, cls_name, combo, seed, nops):
         t = r.choice(tags)
         if x < 0.08:
             w.nested_update(r)
+        elif x < 0.14:
+            w.reentrant_ops(r)
         elif x < 0.70:
             off, seg, geom = gen_update(w, r)
             w.update(off, seg, geom)
@@ -395,6 +483,7 @@ def main(tier, seed):
         run.need(need in g, f"update geometry {need} never exercised")
     run.need(run.counters.get("notifications_matched", 0) > 1000, "too few notifications observed")
     run.need(run.counters.get("nested_updates", 0) > 100, "too few re-entrant updates")
+    run.need(run.counters.get("reentrant_observer_ops", 0) > 100 and len(run.sets.get("reentrant_ops", set())) >= 5, "too few observer-set operations made from inside a notification")
     run.need(run.counters.get("silent_foreign_bit_changes_checked", 0) > 50, "too few silent foreign-bit changes observed")
     run.need(run.counters.get("unwatch_calls", 0) > 20 and run.counters.get("double_registrations", 0) > 20, "observer-set operations not exercised")
     run.need({"function", "lambda", "method"} <= run.sets.get("unwatched_kinds", set()), "not every observer kind was unwatched")
